@@ -189,12 +189,28 @@ print(json.dumps(c18.run_in_process(case)))
 def run_in_process(case):
     import jsonpath_rfc9535 as jp
 
-    env = type("E", (jp.JSONPathEnvironment,), {"nondeterministic": case["mode"] == "nondet",
-                                                "max_recursion_depth": case["L"]})()
+    how = case.get("config", "class")
+    if how == "instance":
+        # the same configuration set on the instance after construction
+        env = jp.JSONPathEnvironment()
+        env.nondeterministic = case["mode"] == "nondet"
+        env.max_recursion_depth = case["L"]
+    elif how == "changed-after-compile":
+        # compile under another limit, then set the limit: the bound is the one configured when the query is applied
+        env = type("E", (jp.JSONPathEnvironment,), {"nondeterministic": case["mode"] == "nondet",
+                                                    "max_recursion_depth": case["L"] + 7})()
+    else:
+        env = type("E", (jp.JSONPathEnvironment,), {"nondeterministic": case["mode"] == "nondet",
+                                                    "max_recursion_depth": case["L"]})()
     v, _ = build(case["shape"])
     q = query_of(case)
     try:
-        nodes = env.find(q, v)
+        if how == "changed-after-compile":
+            cq = env.compile(q)
+            env.max_recursion_depth = case["L"]
+            nodes = cq.find(v)
+        else:
+            nodes = env.find(q, v)
         return {"outcome": "ok", "locations": [list(n.location) for n in nodes]}
     except jp.JSONPathRecursionError:
         return {"outcome": "recursion-error"}
@@ -292,7 +308,8 @@ def run_shard(spec, shard):
                      "side": r.choice(["none", "before", "after", "around"])}
             if L > 20:
                 shape["side"] = r.choice(["none", "before"])
-        case = {"L": L, "mode": mode, "shape": shape, "below_child": below, "tail": tail}
+        case = {"L": L, "mode": mode, "shape": shape, "below_child": below, "tail": tail,
+                "config": r.choice(["class", "class", "instance", "changed-after-compile"])}
         if excluded_ab(case):
             shard.excluded["AB:nondeterministic-mode-on-a-branching-cycle-with-limit>14"] += 1
             return
@@ -307,7 +324,7 @@ def run_shard(spec, shard):
             delta = start_nest - L
             nt = abs(delta) <= 2
         shard.case(key=case, nontrivial=nt,
-                   classes={"mode:" + mode, "expected:" + exp, "L:" + ("default" if L == 100 else "small" if L <= 12 else "large"),
+                   classes={"mode:" + mode, "expected:" + exp, "config:" + case["config"], "L:" + ("default" if L == 100 else "small" if L <= 12 else "large"),
                             "delta:" + str(delta), "below-child" if below else "at-root",
                             "shape:" + ("cycle" if cyc else shape["side"] + "/" + shape["bottom"])},
                    sample={"L": L, "mode": mode, "query": query_of(case), "shape": shape if cyc or len(shape["spine"]) < 14 else
